@@ -1386,29 +1386,43 @@ impl LpgStore {
         // Get or create label ID
         let label_id = self.get_or_create_label_id(label);
 
-        // Add to node_labels map
-        let mut node_labels = self.node_labels.write();
-        let label_set = node_labels.entry(node_id).or_default();
-
-        if label_set.contains(&label_id) {
-            return false; // Already has this label
+        // The node table stays write-locked while the label structures change:
+        // a delete_node running in between would leave a deleted node in the
+        // label index, and taking this lock last (while still holding the label
+        // index, as before) inverts the order delete_node uses and can deadlock.
+        // Lock order: nodes, then node_labels / label_index one at a time.
+        let mut nodes = self.nodes.write();
+        let Some(chain) = nodes.get_mut(&node_id) else {
+            return false;
+        };
+        if chain.visible_at(epoch).map_or(true, |r| r.is_deleted()) {
+            return false;
         }
 
-        label_set.insert(label_id);
-        drop(node_labels);
+        // Add to node_labels map
+        let count = {
+            let mut node_labels = self.node_labels.write();
+            let label_set = node_labels.entry(node_id).or_default();
+
+            if label_set.contains(&label_id) {
+                return false; // Already has this label
+            }
+
+            label_set.insert(label_id);
+            label_set.len()
+        };
 
         // Add to label_index
-        let mut index = self.label_index.write();
-        if (label_id as usize) >= index.len() {
-            index.resize(label_id as usize + 1, FxHashMap::default());
+        {
+            let mut index = self.label_index.write();
+            if (label_id as usize) >= index.len() {
+                index.resize(label_id as usize + 1, FxHashMap::default());
+            }
+            index[label_id as usize].insert(node_id, ());
         }
-        index[label_id as usize].insert(node_id, ());
 
         // Update label count in node record
-        if let Some(chain) = self.nodes.write().get_mut(&node_id)
-            && let Some(record) = chain.latest_mut()
-        {
-            let count = self.node_labels.read().get(&node_id).map_or(0, |s| s.len());
+        if let Some(record) = chain.latest_mut() {
             record.set_label_count(count as u16);
         }
 
@@ -1495,28 +1509,38 @@ impl LpgStore {
             }
         };
 
-        // Remove from node_labels map
-        let mut node_labels = self.node_labels.write();
-        if let Some(label_set) = node_labels.get_mut(&node_id) {
-            if !label_set.remove(&label_id) {
-                return false; // Node doesn't have this label
-            }
-        } else {
+        // Node table write-locked for the whole update (see add_label)
+        let mut nodes = self.nodes.write();
+        let Some(chain) = nodes.get_mut(&node_id) else {
+            return false;
+        };
+        if chain.visible_at(epoch).map_or(true, |r| r.is_deleted()) {
             return false;
         }
-        drop(node_labels);
+
+        // Remove from node_labels map
+        let count = {
+            let mut node_labels = self.node_labels.write();
+            if let Some(label_set) = node_labels.get_mut(&node_id) {
+                if !label_set.remove(&label_id) {
+                    return false; // Node doesn't have this label
+                }
+                label_set.len()
+            } else {
+                return false;
+            }
+        };
 
         // Remove from label_index
-        let mut index = self.label_index.write();
-        if (label_id as usize) < index.len() {
-            index[label_id as usize].remove(&node_id);
+        {
+            let mut index = self.label_index.write();
+            if (label_id as usize) < index.len() {
+                index[label_id as usize].remove(&node_id);
+            }
         }
 
         // Update label count in node record
-        if let Some(chain) = self.nodes.write().get_mut(&node_id)
-            && let Some(record) = chain.latest_mut()
-        {
-            let count = self.node_labels.read().get(&node_id).map_or(0, |s| s.len());
+        if let Some(record) = chain.latest_mut() {
             record.set_label_count(count as u16);
         }
 
